@@ -411,7 +411,7 @@ func (g *gen) seg(d int) string {
 			if g.r.P(20) && len(name) > 2 {
 				// a computed template name
 				// (plain form only: this engine takes the text of a computed name literally when `with` follows)
-				return g.open("include '" + name[:len(name)-1] + "' ~ '" + name[len(name)-1:] + "'")
+				return g.open("set incname = '"+name+"'") + g.open("include incname")
 			}
 			if g.r.P(40) {
 				s += " with {'s1': " + g.at("include-with", func() string { return g.wrapSpy(g.scalar(1)) }) + ", 'extra': " + g.scalar(0) + "}"
